@@ -71,16 +71,16 @@ type qeSpec struct {
 }
 
 type scenario struct {
-	Kind     string   `json:"kind"` // directed racy shutdown history
-	Workers  int      `json:"workers"`
-	QEs      []qeSpec `json:"qes"`
-	Batches  []int    `json:"batches"` // sizes, directed
-	Perturb  uint64   `json:"perturb"`
-	History  int      `json:"history"` // number of query events of a history scenario
-	Seed     uint64   `json:"seed"`
-	ShutAt   int      `json:"shut_at"` // shutdown scenario: shut down before the expiry of this batch
-	Index    int      `json:"index"`
-	Gen      genRef   `json:"gen"`
+	Kind    string   `json:"kind"` // directed racy shutdown history
+	Workers int      `json:"workers"`
+	QEs     []qeSpec `json:"qes"`
+	Batches []int    `json:"batches"` // sizes, directed
+	Perturb uint64   `json:"perturb"`
+	History int      `json:"history"` // number of query events of a history scenario
+	Seed    uint64   `json:"seed"`
+	ShutAt  int      `json:"shut_at"` // shutdown scenario: shut down before the expiry of this batch
+	Index   int      `json:"index"`
+	Gen     genRef   `json:"gen"`
 }
 
 // genRef names a generated scenario: generate(seed, tier, n)[index].  Replay files carry this
@@ -721,7 +721,9 @@ func (r *runner) sendFree(q *qeState, j int) {
 	if !r.send(q, j) {
 		return
 	}
-	ev := r.await(func(e *gateEv) bool { return e.k == q.k && (e.pt == "query-recv" || e.pt == "query-done" || e.pt == "exit") }, 2*time.Second)
+	ev := r.await(func(e *gateEv) bool {
+		return e.k == q.k && (e.pt == "query-recv" || e.pt == "query-done" || e.pt == "exit")
+	}, 2*time.Second)
 	if ev == nil {
 		r.stall(fmt.Sprintf("listener of query event %d did not take a delivered request", q.k))
 		return
@@ -1215,7 +1217,6 @@ func (r *runner) runHistory() {
 	fmt.Fprintln(os.Stderr, "history:", desc)
 }
 
-
 // runHistoryNats: the same long history on a real nats.go connection to an embedded nats-server, with a
 // second connection playing the gateway (it sends query requests to the subject of every query event it
 // sees, and again after the expiry).  Observes what the scripted Conn cannot: the subscriptions are
@@ -1386,18 +1387,18 @@ func (r *runner) runHistoryNats() {
 // ---------- log -> cases ----------
 
 type qconv struct {
-	labels    []string
-	listener  []int // indices of listener labels
-	pendFwd   bool
-	inDone    bool
-	lastEnq   int
-	calls     []string
-	resps     map[int][]string
-	ranJ      map[int]bool
-	npub      int
-	failNil   bool
-	exited    bool
-	nontriv   int
+	labels   []string
+	listener []int // indices of listener labels
+	pendFwd  bool
+	inDone   bool
+	lastEnq  int
+	calls    []string
+	resps    map[int][]string
+	ranJ     map[int]bool
+	npub     int
+	failNil  bool
+	exited   bool
+	nontriv  int
 }
 
 func (r *runner) convert() []Case {
